@@ -75,6 +75,13 @@ def make_params(fam, n, K, tails, regime, dtype, gen):
                 idx = torch.randint(0, m, (n,), generator=gen)
                 sgn = (torch.randint(0, 2, (n,), generator=gen) * 2 - 1).to(dtype)
                 p[torch.arange(n), idx] = 10 * sgn
+        elif regime == 'steep':
+            # legitimate but uncommon: the LAST parameter group (knot derivatives for rq) holds values in the hundreds and thousands,
+            # where softplus is the identity and a hand-written log(1 + exp(.)) overflows; the other groups are N(0, 1)
+            p = torch.randn(n, m, dtype=dtype, generator=gen)
+            if m > 0 and fam == 'rq' and len(out) == 2:
+                vals = torch.tensor([1500.0, -40.0, 900.0, 3.0, 2500.0, -0.5, 130.0, 700.0], dtype=dtype)
+                p = vals[(torch.arange(n)[:, None] * 3 + torch.arange(m)[None, :]) % 8] + 0.1 * p
         else:
             raise ValueError(regime)
         out.append(p)
